@@ -15,6 +15,20 @@ HIST = "ascmhl.history.MHLHistory"
 STRING_PREFIX_OPS = ("startswith", "endswith", "commonprefix", "find", "rfind", "index", "partition", "removeprefix", "lstrip")
 
 
+def _mapping_value(o):
+    """a provenance term that is a value of the child mapping: `mapping[key]` or `mapping.get(key)`"""
+    if o[0] == "elem" and o[1][0] == "attr" and o[1][2] == "child_history_mappings":
+        return True
+    return is_call(o, "get") and o[1] == "builtinm:dict.get" and len(o[2]) == 1 and o[5] is not None and o[5][0] == "attr" and o[5][2] == "child_history_mappings"
+
+
+def _is_mapping_get(p, f, n):
+    if not (isinstance(n, ast.Call) and isinstance(n.func, ast.Attribute) and n.func.attr == "get" and not n.keywords):
+        return False
+    rt = p.etype(n.func.value, f)
+    return rt is not None and rt[0] == "Dict" and norm(n.func.value).endswith("child_history_mappings")
+
+
 def run(report, p):
     pr = prov(p)
     cmds = commands(p)
@@ -45,6 +59,7 @@ def run(report, p):
             r1.check(is_dict, fr, n, f"membership test `{norm(n)}` is not a dictionary key lookup (substring / list membership cannot identify the owning history)", construct=f"membership {norm(n)}")
     whiles = [n for n in walk_no_nested(fr.node) if isinstance(n, ast.While)]
     okw = len(whiles) == 1
+    got_var = None
     if okw:
         w = whiles[0]
         var = None
@@ -56,6 +71,13 @@ def run(report, p):
         if okw:
             shortens = [n for n in ast.walk(w) if isinstance(n, ast.Assign) and len(n.targets) == 1 and norm(n.targets[0]) == var and isinstance(n.value, ast.Call) and norm(n.value.func) == "os.path.dirname" and norm(n.value.args[0]) == var]
             looks = [n for n in ast.walk(w) if isinstance(n, ast.Compare) and isinstance(n.ops[0], ast.In) and norm(n.left) == var]
+            # the other exact-key idiom: `found = mapping.get(var)` tested against None (the mapping's values are histories, never None)
+            gets = [n for n in ast.walk(w) if _is_mapping_get(p, fr, n) and len(n.args) == 1 and norm(n.args[0]) == var]
+            if not looks and len(gets) == 1 and isinstance(parent(gets[0]), ast.Assign) and isinstance(parent(gets[0]).targets[0], ast.Name):
+                got = parent(gets[0]).targets[0].id
+                if sum(1 for a in walk_no_nested(fr.node) if isinstance(a, (ast.Assign, ast.AugAssign, ast.AnnAssign, ast.NamedExpr, ast.For)) and any(isinstance(x, ast.Name) and x.id == got and isinstance(x.ctx, ast.Store) for x in ast.walk(a))) == 1:
+                    looks = gets
+                    got_var = got
             okw = len(shortens) == 1 and len(looks) == 1 and parent(shortens[0]) is w
             init = [n for n in walk_no_nested(fr.node) if isinstance(n, ast.Assign) and norm(n.targets[0]) == var and not _inside(n, w)]
             okw = okw and len(init) == 1 and norm(init[0].value) == fr.params[1]
@@ -67,8 +89,8 @@ def run(report, p):
     if ok_ret:
         hist_o = pr.origins(inner[0].value.elts[0], fr)
         rel_o = pr.origins(inner[0].value.elts[1], fr)
-        ok_ret = all(o[0] == "elem" and o[1][0] == "attr" and o[1][2] == "child_history_mappings" for o in hist_o)
-        ok_ret = ok_ret and all(is_call(o, "get_relative_file_path") and o[2] and is_call(o[2][0], "os.path.join") and any(is_call(s, "get_root_path") and s[5] is not None and s[5][0] == "self" for s in subterms(o[2][0])) and any(s[0] == "param" and s[2] == fr.params[1] for s in subterms(o[2][0])) and o[5] is not None and o[5][0] == "elem" for o in rel_o)
+        ok_ret = all(_mapping_value(o) for o in hist_o)
+        ok_ret = ok_ret and all(is_call(o, "get_relative_file_path") and o[2] and is_call(o[2][0], "os.path.join") and any(is_call(s, "get_root_path") and s[5] is not None and s[5][0] == "self" for s in subterms(o[2][0])) and any(s[0] == "param" and s[2] == fr.params[1] for s in subterms(o[2][0])) and o[5] is not None and _mapping_value(o[5]) for o in rel_o)
     r1.check(ok_ret, fr, inner[0] if inner else fr.node, "on a match routing does not return (child history, path relative to that child's own root)", construct="routing match result")
     ok_out = all(isinstance(n.value, ast.Tuple) and norm(n.value) == f"({fr.params[0]}, {fr.params[1]})" for n in outer) and len(outer) >= 1
     r1.check(ok_out, fr, outer[0] if outer else fr.node, "without a matching child routing does not return (this history, the unchanged path)", construct="routing fall-through")
@@ -84,7 +106,7 @@ def run(report, p):
         extra = []
         for a, l in sorted(at):
             a2 = a.replace(" ", "")
-            structural = a2.startswith(("len(self.child_histories)", "self.child_histories", "notself.child_histories")) or (whiles and norm(whiles[0].test).replace(" ", "") == a2) or ("inself.child_history_mappings" in a2) or a2.startswith("len(dir_path)") or a2 == "dir_path"
+            structural = a2.startswith(("len(self.child_histories)", "self.child_histories", "notself.child_histories")) or (whiles and norm(whiles[0].test).replace(" ", "") == a2) or ("inself.child_history_mappings" in a2) or a2.startswith("len(dir_path)") or a2 == "dir_path" or (got_var is not None and a2 in (f"{got_var}isNone", f"{got_var}isnotNone", got_var, f"not{got_var}"))
             if not structural:
                 extra.append((a, l))
         r1.check(not extra, fr, n, f"routing returns 'this history' under {extra}: which history owns a path must depend only on the path and the nested roots, not on recorded state", construct=f"routing fall-through under {extra}")
